@@ -1435,6 +1435,7 @@ _NP_FUNCS = {
     "asanyarray": _np_array,
     "sqrt": _np_sqrt,
     "zeros": _np_zeros,
+    "empty": _np_zeros,
     "ones": _np_ones,
     "eye": _np_eye,
     "identity": _np_eye,
